@@ -1,6 +1,15 @@
 /-
   Lemmas for C14 (filter meaning): negation push-down and agreement of the emitted filter's
   documented meaning with the core evaluation.
+
+  After the two repairs of mongo/has_evaluator.go (`fix: the mongo compiler emits no filter MongoDB
+  rejects`: and()/or() without members, within/without with a value that is not a list; and
+  contains compiled to `$elemMatch`) the side conditions shrink:
+
+  * push-down (`pushdown`) and validity (`valid`) need only `wellFormed` — every oneof set and no
+    condition number outside the enum; no condition on the arguments, none on the member lists;
+  * agreement is proved for BOTH polarities at once (`equiv_gen`) from a per-leaf statement, so the
+    same induction serves `agree` (the model's predicate) and the wider `agreeW` below.
 -/
 import Grip.Model.C14
 
@@ -8,6 +17,8 @@ set_option linter.unusedSimpArgs false
 
 namespace Grip.Props.C14.Lemmas
 open Grip Grip.C08 Grip.C14
+
+/-! ### Option algebra -/
 
 theorem map_not_not (o : Option Bool) : (o.map (!·)).map (!·) = o := by
   cases o <;> simp
@@ -36,30 +47,113 @@ theorem opOf_ne_empty (c : Cond) (a : JV)
     (h : c ≠ .unset ∧ c ≠ .inside ∧ c ≠ .outside ∧ c ≠ .between) : opOf c a ≠ .empty := by
   cases c <;> simp_all [opOf]
 
+/-! ### Well-formed expressions
+
+  `translatable` (the model's predicate) additionally asks range operators to carry a list.  That
+  was needed while a non-list range argument compiled to the empty filter under both polarities;
+  since `rangeLimits`/`matchNone` it is not, and since the empty-`$and` repair nothing is asked of
+  member lists either. -/
+
+def leafWellFormed (c : Cond) : Bool :=
+  match c with
+  | .unset => false
+  | _ => true
+
+mutual
+  /-- Every expression oneof is set and every condition is one the `switch` lists. -/
+  def wellFormed : HasE → Bool
+    | .cond _ c _ => leafWellFormed c
+    | .and es => wellFormedList es
+    | .or es => wellFormedList es
+    | .not x => wellFormed x
+    | .none => false
+  def wellFormedList : List HasE → Bool
+    | [] => true
+    | x :: xs => wellFormed x && wellFormedList xs
+end
+
+theorem leafTranslatable_wellFormed (c : Cond) (a : JV) (h : leafTranslatable c a = true) :
+    leafWellFormed c = true := by
+  cases c <;> simp_all [leafTranslatable, leafWellFormed]
+
+mutual
+  theorem translatable_wellFormed : ∀ (e : HasE), translatable e = true → wellFormed e = true
+    | .cond _ c a, h => by
+      simp only [translatable] at h
+      simp only [wellFormed]; exact leafTranslatable_wellFormed c a h
+    | .and es, h => by
+      simp only [translatable] at h
+      simp only [wellFormed]; exact translatableList_wellFormed es h
+    | .or es, h => by
+      simp only [translatable] at h
+      simp only [wellFormed]; exact translatableList_wellFormed es h
+    | .not x, h => by
+      simp only [translatable] at h
+      simp only [wellFormed]; exact translatable_wellFormed x h
+    | .none, h => by simp [translatable] at h
+  theorem translatableList_wellFormed : ∀ (es : List HasE), translatableList es = true →
+      wellFormedList es = true
+    | [], _ => rfl
+    | x :: xs, h => by
+      simp only [translatableList, Bool.and_eq_true] at h
+      simp [wellFormedList, translatable_wellFormed x h.1, translatableList_wellFormed xs h.2]
+end
+
+/-! ### Negation push-down -/
+
+/-- matchNone(!not) is the complement of matchNone(not). -/
+theorem matchNone_flip (d : Elem) (n : Bool) :
+    mEval d (if (!n) = true then MDoc.all else MDoc.nothing) =
+      (mEval d (if n = true then MDoc.all else MDoc.nothing)).map (!·) := by
+  cases n <;> simp [mEval]
+
+theorem matchAll_flip (d : Elem) (n : Bool) :
+    mEval d (if (!n) = true then MDoc.nothing else MDoc.all) =
+      (mEval d (if n = true then MDoc.nothing else MDoc.all)).map (!·) := by
+  cases n <;> simp [mEval]
+
+/-- `{key: {$not: expr}}` against `{key: expr}`. -/
+theorem field_flip (d : Elem) (k : String) (o : MOp) (n : Bool) (h : o ≠ .empty) :
+    mEval d (.field k (if (!n) = true then .not o else o)) =
+      (mEval d (.field k (if n = true then .not o else o))).map (!·) := by
+  cases n
+  · simp [mEval, evalOp_not _ _ h]
+  · simp only [mEval, evalOp_not _ _ h, Bool.not_true, if_true, Bool.false_eq_true, if_false]
+    exact (map_not_not _).symm
+
 theorem convCond_flip (d : Elem) (k : String) (c : Cond) (a : JV) (n : Bool)
     (h : opOf c a ≠ .empty) :
     mEval d (convCond k c a (!n)) = (mEval d (convCond k c a n)).map (!·) := by
-  cases n
-  · simp [convCond, mEval, evalOp_not _ _ h]
-  · simp only [convCond, mEval, evalOp_not _ _ h, Bool.not_true, if_true, Bool.false_eq_true, if_false]
-    exact (map_not_not _).symm
+  cases c
+  case within =>
+    simp only [convCond]
+    cases isArr a
+    · simpa using matchNone_flip d n
+    · simpa using field_flip d k _ n h
+  case without =>
+    simp only [convCond]
+    cases isArr a
+    · simpa using matchAll_flip d n
+    · simpa using field_flip d k _ n h
+  all_goals exact field_flip d k _ n h
 
+/-- and/or of the members, empty member lists included. -/
 theorem junction_flip (d : Elem) (isAnd n : Bool) (xs ys : List MDoc)
     (hl : mEvalList d ys = (mEvalList d xs).map (Option.map (!·)))
     (he : ys.isEmpty = xs.isEmpty) :
     mEval d (junction isAnd (!n) ys) = (mEval d (junction isAnd n xs)).map (!·) := by
-  have hA : mEval d (.and ys) = (mEval d (.or xs)).map (!·) := by
-    simp only [mEval, he, hl, andOpt_map_not]; cases xs.isEmpty <;> simp
-  have hO : mEval d (.or ys) = (mEval d (.and xs)).map (!·) := by
-    simp only [mEval, he, hl, orOpt_map_not]; cases xs.isEmpty <;> simp
-  cases isAnd <;> cases n <;> simp [junction, hA, hO]
+  cases hx : xs.isEmpty
+  · have hA : mEval d (.and ys) = (mEval d (.or xs)).map (!·) := by
+      simp [mEval, he, hx, hl, andOpt_map_not]
+    have hO : mEval d (.or ys) = (mEval d (.and xs)).map (!·) := by
+      simp [mEval, he, hx, hl, orOpt_map_not]
+    cases isAnd <;> cases n <;> simp [junction, he, hx, hA, hO]
+  · cases isAnd <;> cases n <;> simp [junction, he, hx, mEval]
 
 theorem convRange_flip (d : Elem) (k : String) (c1 c2 : Cond) (isAnd : Bool) (a : JV) (n : Bool)
     (h1 : ∀ x, opOf c1 x ≠ .empty) (h2 : ∀ x, opOf c2 x ≠ .empty) :
     mEval d (convRange k c1 c2 isAnd a (!n)) = (mEval d (convRange k c1 c2 isAnd a n)).map (!·) := by
-  have bad : mEval d (if (!n) = true then MDoc.all else MDoc.nothing) =
-      (mEval d (if n = true then MDoc.all else MDoc.nothing)).map (!·) := by
-    cases n <;> simp [mEval]
+  have bad := matchNone_flip d n
   cases a with
   | arr xs =>
     match xs with
@@ -76,39 +170,227 @@ theorem convRange_flip (d : Elem) (k : String) (c1 c2 : Cond) (isAnd : Bool) (a 
 theorem convertList_isEmpty (es : List HasE) (n : Bool) : (convertList es n).isEmpty = es.isEmpty := by
   cases es <;> simp [convertList]
 
+/-- One leaf, every argument: push-down needs only a condition the `switch` lists. -/
+theorem leaf_pushdown (d : Elem) (k : String) (c : Cond) (a : JV) (n : Bool)
+    (h : leafWellFormed c = true) :
+    mEval d (convert (.cond k c a) (!n)) = (mEval d (convert (.cond k c a) n)).map (!·) := by
+  cases c <;> simp only [convert]
+  case inside => exact convRange_flip d k _ _ _ a n (by intro x; simp [opOf]) (by intro x; simp [opOf])
+  case outside => exact convRange_flip d k _ _ _ a n (by intro x; simp [opOf]) (by intro x; simp [opOf])
+  case between => exact convRange_flip d k _ _ _ a n (by intro x; simp [opOf]) (by intro x; simp [opOf])
+  case unset => simp [leafWellFormed] at h
+  all_goals exact convCond_flip d k _ a n (by simp [opOf])
+
 mutual
-  theorem pushdown (d : Elem) : ∀ (e : HasE) (n : Bool), translatable e = true →
+  /-- Push-down for every polarity and every well-formed expression (any depth, any arguments, any
+      member lists — empty ones included). -/
+  theorem pushdown (d : Elem) : ∀ (e : HasE) (n : Bool), wellFormed e = true →
       mEval d (convert e (!n)) = (mEval d (convert e n)).map (!·)
     | .cond k c a, n, h => by
-      simp only [translatable] at h
-      cases c <;> simp only [convert] <;> simp only [leafTranslatable] at h
-      case inside => exact convRange_flip d k _ _ _ a n (by intro x; simp [opOf]) (by intro x; simp [opOf])
-      case outside => exact convRange_flip d k _ _ _ a n (by intro x; simp [opOf]) (by intro x; simp [opOf])
-      case between => exact convRange_flip d k _ _ _ a n (by intro x; simp [opOf]) (by intro x; simp [opOf])
-      case unset => simp at h
-      all_goals exact convCond_flip d k _ a n (by simp [opOf])
+      simp only [wellFormed] at h
+      exact leaf_pushdown d k c a n h
     | .and es, n, h => by
-      simp only [translatable] at h
+      simp only [wellFormed] at h
       simp only [convert]
       exact junction_flip d true n _ _ (pushdownList d es n h) (by simp [convertList_isEmpty])
     | .or es, n, h => by
-      simp only [translatable] at h
+      simp only [wellFormed] at h
       simp only [convert]
       exact junction_flip d false n _ _ (pushdownList d es n h) (by simp [convertList_isEmpty])
     | .not x, n, h => by
-      simp only [translatable] at h
+      simp only [wellFormed] at h
       simp only [convert]
       exact pushdown d x (!n) h
-    | .none, _, h => by simp [translatable] at h
-  theorem pushdownList (d : Elem) : ∀ (es : List HasE) (n : Bool), translatableList es = true →
+    | .none, _, h => by simp [wellFormed] at h
+  theorem pushdownList (d : Elem) : ∀ (es : List HasE) (n : Bool), wellFormedList es = true →
       mEvalList d (convertList es (!n)) = (mEvalList d (convertList es n)).map (Option.map (!·))
     | [], _, _ => by simp [convertList, mEvalList]
     | x :: xs, n, h => by
-      simp only [translatableList, Bool.and_eq_true] at h
+      simp only [wellFormedList, Bool.and_eq_true] at h
       simp [convertList, mEvalList, pushdown d x n h.1, pushdownList d xs n h.2]
 end
 
-/-! ### agreement with the core evaluation -/
+/-! ### The emitted filter is never refused -/
+
+theorem andOpt_isSome (xs : List (Option Bool)) (h : ∀ x ∈ xs, x.isSome = true) :
+    (andOpt xs).isSome = true := by
+  induction xs with
+  | nil => rfl
+  | cons x xs ih =>
+    have hx := h x (by simp)
+    have hr := ih (fun y hy => h y (by simp [hy]))
+    cases x <;> simp_all [andOpt]
+    cases hq : andOpt xs <;> simp_all
+
+theorem orOpt_isSome (xs : List (Option Bool)) (h : ∀ x ∈ xs, x.isSome = true) :
+    (orOpt xs).isSome = true := by
+  induction xs with
+  | nil => rfl
+  | cons x xs ih =>
+    have hx := h x (by simp)
+    have hr := ih (fun y hy => h y (by simp [hy]))
+    cases x <;> simp_all [orOpt]
+    cases hq : orOpt xs <;> simp_all
+
+theorem junction_valid (d : Elem) (isAnd n : Bool) (xs : List MDoc)
+    (h : ∀ x ∈ mEvalList d xs, x.isSome = true) :
+    (mEval d (junction isAnd n xs)).isSome = true := by
+  cases hx : xs.isEmpty
+  · cases isAnd <;> cases n <;>
+      simp [junction, hx, mEval, andOpt_isSome _ h, orOpt_isSome _ h]
+  · cases isAnd <;> cases n <;> simp [junction, hx, mEval]
+
+theorem field_valid (d : Elem) (k : String) (o : MOp) (n : Bool) (h : o ≠ .empty)
+    (hv : (evalOp o (lookup d k)).isSome = true) :
+    (mEval d (.field k (if n = true then .not o else o))).isSome = true := by
+  cases n
+  · simpa [mEval] using hv
+  · simp only [mEval, if_true, evalOp_not _ _ h]
+    cases hq : evalOp o (lookup d k) <;> simp_all
+
+theorem convCond_valid (d : Elem) (k : String) (c : Cond) (a : JV) (n : Bool)
+    (h : c ≠ .unset ∧ c ≠ .inside ∧ c ≠ .outside ∧ c ≠ .between) :
+    (mEval d (convCond k c a n)).isSome = true := by
+  have hne := opOf_ne_empty c a h
+  cases c
+  case within =>
+    simp only [convCond]
+    cases ha : isArr a
+    · cases n <;> simp [mEval]
+    · simp only [if_true]
+      apply field_valid d k _ n hne
+      cases a <;> simp_all [isArr, opOf, evalOp]
+  case without =>
+    simp only [convCond]
+    cases ha : isArr a
+    · cases n <;> simp [mEval]
+    · simp only [if_true]
+      apply field_valid d k _ n hne
+      cases a <;> simp_all [isArr, opOf, evalOp]
+  case unset => simp at h
+  case inside => simp at h
+  case outside => simp at h
+  case between => simp at h
+  all_goals
+    (simp only [convCond]
+     apply field_valid d k _ n hne
+     simp [opOf, evalOp])
+  case contains => cases lookup d k <;> simp
+
+theorem convRange_valid (d : Elem) (k : String) (c1 c2 : Cond) (isAnd : Bool) (a : JV) (n : Bool)
+    (h1 : c1 ≠ .unset ∧ c1 ≠ .inside ∧ c1 ≠ .outside ∧ c1 ≠ .between)
+    (h2 : c2 ≠ .unset ∧ c2 ≠ .inside ∧ c2 ≠ .outside ∧ c2 ≠ .between) :
+    (mEval d (convRange k c1 c2 isAnd a n)).isSome = true := by
+  have bad : (mEval d (if n = true then MDoc.all else MDoc.nothing)).isSome = true := by
+    cases n <;> simp [mEval]
+  cases a with
+  | arr xs =>
+    match xs with
+    | [] => simpa [convRange] using bad
+    | [_] => simpa [convRange] using bad
+    | [l, u] =>
+      simp only [convRange]
+      apply junction_valid
+      intro x hx
+      simp only [mEvalList, List.mem_cons, List.not_mem_nil, or_false] at hx
+      rcases hx with rfl | rfl
+      · exact convCond_valid d k c1 l n h1
+      · exact convCond_valid d k c2 u n h2
+    | _ :: _ :: _ :: _ => simpa [convRange] using bad
+  | _ => simpa [convRange] using bad
+
+theorem leaf_valid (d : Elem) (k : String) (c : Cond) (a : JV) (n : Bool)
+    (h : leafWellFormed c = true) : (mEval d (convert (.cond k c a) n)).isSome = true := by
+  cases c <;> simp only [convert]
+  case inside => exact convRange_valid d k _ _ _ a n (by simp) (by simp)
+  case outside => exact convRange_valid d k _ _ _ a n (by simp) (by simp)
+  case between => exact convRange_valid d k _ _ _ a n (by simp) (by simp)
+  case unset => simp [leafWellFormed] at h
+  all_goals exact convCond_valid d k _ a n (by simp)
+
+mutual
+  /-- MongoDB accepts the filter emitted for any well-formed expression, whatever the polarity. -/
+  theorem valid (d : Elem) : ∀ (e : HasE) (n : Bool), wellFormed e = true →
+      (mEval d (convert e n)).isSome = true
+    | .cond k c a, n, h => by
+      simp only [wellFormed] at h
+      exact leaf_valid d k c a n h
+    | .and es, n, h => by
+      simp only [wellFormed] at h
+      simp only [convert]
+      exact junction_valid d true n _ (validList d es n h)
+    | .or es, n, h => by
+      simp only [wellFormed] at h
+      simp only [convert]
+      exact junction_valid d false n _ (validList d es n h)
+    | .not x, n, h => by
+      simp only [wellFormed] at h
+      simp only [convert]
+      exact valid d x (!n) h
+    | .none, _, h => by simp [wellFormed] at h
+  theorem validList (d : Elem) : ∀ (es : List HasE) (n : Bool), wellFormedList es = true →
+      ∀ x ∈ mEvalList d (convertList es n), x.isSome = true
+    | [], _, _ => by simp [convertList, mEvalList]
+    | y :: ys, n, h => by
+      simp only [wellFormedList, Bool.and_eq_true] at h
+      intro x hx
+      simp only [convertList, mEvalList, List.mem_cons] at hx
+      rcases hx with rfl | hx
+      · exact valid d y n h.1
+      · exact validList d ys n h.2 x hx
+end
+
+/-! ### The crash marker is never emitted -/
+
+theorem junction_noCrash (isAnd n : Bool) (xs : List MDoc) (h : hasCrashList xs = false) :
+    hasCrash (junction isAnd n xs) = false := by
+  cases hx : xs.isEmpty <;> cases isAnd <;> cases n <;> simp [junction, hx, hasCrash, h]
+
+theorem convCond_noCrash (k : String) (c : Cond) (a : JV) (n : Bool) :
+    hasCrash (convCond k c a n) = false := by
+  cases c <;> simp only [convCond]
+  case within => cases isArr a <;> cases n <;> simp [hasCrash]
+  case without => cases isArr a <;> cases n <;> simp [hasCrash]
+  all_goals simp [hasCrash]
+
+theorem convRange_noCrash (k : String) (c1 c2 : Cond) (isAnd : Bool) (a : JV) (n : Bool) :
+    hasCrash (convRange k c1 c2 isAnd a n) = false := by
+  have bad : hasCrash (if n = true then MDoc.all else MDoc.nothing) = false := by
+    cases n <;> simp [hasCrash]
+  cases a with
+  | arr xs =>
+    match xs with
+    | [] => simpa [convRange] using bad
+    | [_] => simpa [convRange] using bad
+    | [l, u] =>
+      simp only [convRange]
+      apply junction_noCrash
+      simp [hasCrashList, convCond_noCrash]
+    | _ :: _ :: _ :: _ => simpa [convRange] using bad
+  | _ => simpa [convRange] using bad
+
+mutual
+  /-- For every expression whatsoever. -/
+  theorem noCrash : ∀ (e : HasE) (n : Bool), hasCrash (convert e n) = false
+    | .cond k c a, n => by
+      cases c <;> simp only [convert]
+      case inside => exact convRange_noCrash ..
+      case outside => exact convRange_noCrash ..
+      case between => exact convRange_noCrash ..
+      all_goals exact convCond_noCrash ..
+    | .and es, n => by
+      simp only [convert]; exact junction_noCrash _ _ _ (noCrashList es n)
+    | .or es, n => by
+      simp only [convert]; exact junction_noCrash _ _ _ (noCrashList es n)
+    | .not x, n => by
+      simp only [convert]; exact noCrash x (!n)
+    | .none, _ => by simp [convert, hasCrash]
+  theorem noCrashList : ∀ (es : List HasE) (n : Bool), hasCrashList (convertList es n) = false
+    | [], _ => by simp [convertList, hasCrashList]
+    | x :: xs, n => by simp [convertList, hasCrashList, noCrash x n, noCrashList xs n]
+end
+
+/-! ### Agreement with the core evaluation: the tree induction, for both polarities -/
 
 theorem andOpt_some (bs : List Bool) : andOpt (bs.map some) = some (allTrue bs) := by
   induction bs with
@@ -120,36 +402,94 @@ theorem orOpt_some (bs : List Bool) : orOpt (bs.map some) = some (anyTrue bs) :=
   | nil => rfl
   | cons b bs ih => cases b <;> simp [orOpt, anyTrue, ih]
 
-theorem leafAgree_translatable (numOf : String → Option Int) (v : JV) (c : Cond) (a : JV)
-    (h : leafAgree numOf v c a = true) : leafTranslatable c a = true := by
-  cases c <;> simp_all [leafAgree, leafTranslatable]
-  all_goals
-    (cases a <;> simp_all [isNumPair, isArr])
+theorem anyTrue_not (bs : List Bool) : anyTrue (bs.map (!·)) = !(allTrue bs) := by
+  induction bs with
+  | nil => rfl
+  | cons b bs ih => cases b <;> simp [anyTrue, allTrue, ih]
+
+theorem allTrue_not (bs : List Bool) : allTrue (bs.map (!·)) = !(anyTrue bs) := by
+  induction bs with
+  | nil => rfl
+  | cons b bs ih => cases b <;> simp [anyTrue, allTrue, ih]
+
+/-- What a polarity does to the core answer. -/
+def pol (n b : Bool) : Bool := b != n
+
+theorem junction_equiv (d : Elem) (isAnd n : Bool) (xs : List MDoc) (bs : List Bool)
+    (hl : mEvalList d xs = bs.map (fun b => some (pol n b)))
+    (he : xs.isEmpty = bs.isEmpty) :
+    mEval d (junction isAnd n xs) = some (pol n (if isAnd then allTrue bs else anyTrue bs)) := by
+  cases hb : bs.isEmpty
+  · have e0 : bs.map (fun b => some (pol false b)) = bs.map some := by
+      apply List.map_congr_left; intro b _; cases b <;> rfl
+    have e1 : bs.map (fun b => some (pol true b)) = (bs.map (!·)).map some := by
+      rw [List.map_map]; apply List.map_congr_left; intro b _; cases b <;> rfl
+    cases isAnd <;> cases n <;>
+      simp only [junction, he, hb, mEval, hl, e0, e1, andOpt_some, orOpt_some, anyTrue_not, allTrue_not,
+        bne_self_eq_false, Bool.false_eq_true, if_false, if_true, Bool.true_bne, Bool.false_bne,
+        Bool.not_true, Bool.not_false] <;>
+      simp [pol]
+  · have : bs = [] := by cases bs <;> simp_all
+    subst this
+    cases isAnd <;> cases n <;> simp [junction, he, mEval, allTrue, anyTrue, pol]
 
 mutual
-  theorem agree_translatable (numOf : String → Option Int) (d : Elem) : ∀ (e : HasE),
-      agree numOf d e = true → translatable e = true
-    | .cond k c a, h => by
-      simp only [agree] at h
-      simp only [translatable]
-      exact leafAgree_translatable numOf _ c a h
-    | .and es, h => by
-      simp only [agree, Bool.and_eq_true] at h
-      simp only [translatable]; exact agreeList_translatable numOf d es h.2
-    | .or es, h => by
-      simp only [agree, Bool.and_eq_true] at h
-      simp only [translatable]; exact agreeList_translatable numOf d es h.2
-    | .not x, h => by
-      simp only [agree] at h
-      simp only [translatable]; exact agree_translatable numOf d x h
-    | .none, h => by simp [agree] at h
-  theorem agreeList_translatable (numOf : String → Option Int) (d : Elem) : ∀ (es : List HasE),
-      agreeList numOf d es = true → translatableList es = true
-    | [], _ => rfl
-    | x :: xs, h => by
-      simp only [agreeList, Bool.and_eq_true] at h
-      simp [translatableList, agree_translatable numOf d x h.1, agreeList_translatable numOf d xs h.2]
+  /-- A leaf predicate holds at every condition, and every oneof is set. -/
+  def allLeaves (p : String → Cond → JV → Bool) : HasE → Bool
+    | .cond k c a => p k c a
+    | .and es => allLeavesList p es
+    | .or es => allLeavesList p es
+    | .not x => allLeaves p x
+    | .none => false
+  def allLeavesList (p : String → Cond → JV → Bool) : List HasE → Bool
+    | [] => true
+    | x :: xs => allLeaves p x && allLeavesList p xs
 end
+
+theorem evalList_isEmpty (numOf : String → Option Int) (d : Elem) (es : List HasE) :
+    (evalList numOf d es).isEmpty = es.isEmpty := by
+  cases es <;> simp [evalList]
+
+mutual
+  /-- If every leaf is compiled to a filter that answers what the core engine answers, under both
+      polarities, then so is the whole expression, under both polarities. -/
+  theorem equiv_gen (numOf : String → Option Int) (d : Elem) (p : String → Cond → JV → Bool)
+      (hp : ∀ k c a, p k c a = true → ∀ n,
+        mEval d (convert (.cond k c a) n) = some (pol n (matchesCond numOf (lookup d k) c a))) :
+      ∀ (e : HasE) (n : Bool), allLeaves p e = true →
+        mEval d (convert e n) = some (pol n (eval numOf d e))
+    | .cond k c a, n, h => by
+      simp only [allLeaves] at h
+      simp only [eval]
+      exact hp k c a h n
+    | .and es, n, h => by
+      simp only [allLeaves] at h
+      simp only [convert, eval]
+      exact junction_equiv d true n _ _ (equiv_genList numOf d p hp es n h)
+        (by simp [convertList_isEmpty, evalList_isEmpty])
+    | .or es, n, h => by
+      simp only [allLeaves] at h
+      simp only [convert, eval]
+      exact junction_equiv d false n _ _ (equiv_genList numOf d p hp es n h)
+        (by simp [convertList_isEmpty, evalList_isEmpty])
+    | .not x, n, h => by
+      simp only [allLeaves] at h
+      simp only [convert, eval, equiv_gen numOf d p hp x (!n) h]
+      cases n <;> cases eval numOf d x <;> rfl
+    | .none, _, h => by simp [allLeaves] at h
+  theorem equiv_genList (numOf : String → Option Int) (d : Elem) (p : String → Cond → JV → Bool)
+      (hp : ∀ k c a, p k c a = true → ∀ n,
+        mEval d (convert (.cond k c a) n) = some (pol n (matchesCond numOf (lookup d k) c a))) :
+      ∀ (es : List HasE) (n : Bool), allLeavesList p es = true →
+        mEvalList d (convertList es n) = (evalList numOf d es).map (fun b => some (pol n b))
+    | [], _, _ => by simp [convertList, mEvalList, evalList]
+    | x :: xs, n, h => by
+      simp only [allLeavesList, Bool.and_eq_true] at h
+      simp [convertList, mEvalList, evalList, equiv_gen numOf d p hp x n h.1,
+        equiv_genList numOf d p hp xs n h.2]
+end
+
+/-! ### The leaves -/
 
 theorem isNumPair_form {a : JV} (h : isNumPair a = true) : ∃ lo hi, a = .arr [.num lo, .num hi] := by
   unfold isNumPair at h
@@ -167,8 +507,8 @@ theorem isArr_form {a : JV} (h : isArr a = true) : ∃ xs, a = .arr xs := by
   cases a <;> simp [isArr] at h
   exact ⟨_, rfl⟩
 
-theorem junction_tf (xs : List MDoc) : junction true false xs = .and xs := by simp [junction]
-theorem junction_ff (xs : List MDoc) : junction false false xs = .or xs := by simp [junction]
+theorem junction_tf (x y : MDoc) : junction true false [x, y] = .and [x, y] := by simp [junction]
+theorem junction_ff (x y : MDoc) : junction false false [x, y] = .or [x, y] := by simp [junction]
 theorem mEval_and2 (d : Elem) (k : String) (o1 o2 : MOp) :
     mEval d (.and [.field k o1, .field k o2]) = andOpt [evalOp o1 (lookup d k), evalOp o2 (lookup d k)] := by
   simp [mEval, mEvalList]
@@ -176,14 +516,89 @@ theorem mEval_or2 (d : Elem) (k : String) (o1 o2 : MOp) :
     mEval d (.or [.field k o1, .field k o2]) = orOpt [evalOp o1 (lookup d k), evalOp o2 (lookup d k)] := by
   simp [mEval, mEvalList]
 
-/-- The leaf case, in the agreeing region. -/
+/-- contains, EVERY field value (scalar, list, object, missing), every argument, both polarities:
+    `$elemMatch: {$eq: a}` selects exactly the documents whose field is a list with an element
+    equal to `a` — the loop of MatchesCondition. -/
+theorem leaf_contains (numOf : String → Option Int) (d : Elem) (k : String) (a : JV) (n : Bool) :
+    mEval d (convert (.cond k .contains a) n) = some (pol n (matchesCond numOf (lookup d k) .contains a)) := by
+  cases n <;> simp only [convert, convCond, mEval, opOf, if_true, Bool.false_eq_true, if_false] <;>
+    cases lookup d k <;> simp [evalOp, matchesCond, pol]
+
+/-- within / without whose argument is not a list: every field value, both polarities. -/
+theorem leaf_within_nonlist (numOf : String → Option Int) (d : Elem) (k : String) (a : JV) (n : Bool)
+    (ha : isArr a = false) :
+    mEval d (convert (.cond k .within a) n) = some (pol n (matchesCond numOf (lookup d k) .within a)) := by
+  cases a <;> simp [isArr] at ha <;> cases n <;> simp [convert, convCond, isArr, mEval, matchesCond, pol]
+
+theorem leaf_without_nonlist (numOf : String → Option Int) (d : Elem) (k : String) (a : JV) (n : Bool)
+    (ha : isArr a = false) :
+    mEval d (convert (.cond k .without a) n) = some (pol n (matchesCond numOf (lookup d k) .without a)) := by
+  cases a <;> simp [isArr] at ha <;> cases n <;> simp [convert, convCond, isArr, mEval, matchesCond, pol]
+
+/-- A range argument that is a list of exactly two values. -/
+def twoBounds : JV → Bool
+  | .arr [_, _] => true
+  | _ => false
+
+theorem twoBounds_false {a : JV} (h : twoBounds a = false) : ∀ l u, a ≠ .arr [l, u] := by
+  intro l u e; subst e; simp [twoBounds] at h
+
+def isRange (c : Cond) : Bool :=
+  match c with
+  | .inside | .outside | .between => true
+  | _ => false
+
+/-- inside / outside / between whose argument is not a list of two values: every field value, both
+    polarities (matchNone(not) against the early `return false` of MatchesCondition). -/
+theorem leaf_range_malformed (numOf : String → Option Int) (d : Elem) (k : String) (c : Cond)
+    (a : JV) (n : Bool) (hc : c = .inside ∨ c = .outside ∨ c = .between)
+    (ha : ∀ l u, a ≠ .arr [l, u]) :
+    mEval d (convert (.cond k c a) n) = some (pol n (matchesCond numOf (lookup d k) c a)) := by
+  have hcore : matchesCond numOf (lookup d k) c a = false := by
+    rcases hc with rfl | rfl | rfl <;> simp only [matchesCond, range3] <;>
+      (cases a with
+       | arr xs =>
+         simp only [toSlice]
+         match xs, ha with
+         | [], _ => rfl
+         | [_], _ => rfl
+         | [l, u], ha => exact absurd rfl (ha l u)
+         | _ :: _ :: _ :: _, _ => rfl
+       | _ => rfl)
+  have hconv : ∀ c1 c2 isAnd, convRange k c1 c2 isAnd a n = if n then MDoc.all else MDoc.nothing := by
+    intro c1 c2 isAnd
+    cases a with
+    | arr xs =>
+      match xs, ha with
+      | [], _ => rfl
+      | [_], _ => rfl
+      | [l, u], ha => exact absurd rfl (ha l u)
+      | _ :: _ :: _ :: _, _ => rfl
+    | _ => rfl
+  rw [hcore]
+  rcases hc with rfl | rfl | rfl <;> simp only [convert, hconv] <;> cases n <;> rfl
+
+/-- The leaf case in the model's agreeing region, polarity `false`. -/
 theorem leaf_equiv (numOf : String → Option Int) (d : Elem) (k : String) (c : Cond) (a : JV)
     (h : leafAgree numOf (lookup d k) c a = true) :
     mEval d (convert (.cond k c a) false) = some (matchesCond numOf (lookup d k) c a) := by
   unfold leafAgree at h
   simp only [Bool.and_eq_true] at h
   obtain ⟨hs, h⟩ := h
-  cases c <;> simp only [convert, convCond, mEval, opOf, Bool.false_eq_true, if_false] <;>
+  cases c
+  case within =>
+    cases ha : isArr a
+    · simpa [pol] using leaf_within_nonlist numOf d k a false ha
+    · obtain ⟨xs, rfl⟩ := isArr_form ha
+      simp [convert, convCond, isArr, mEval, opOf, evalOp, matchesCond]
+  case without =>
+    cases ha : isArr a
+    · simpa [pol] using leaf_without_nonlist numOf d k a false ha
+    · obtain ⟨xs, rfl⟩ := isArr_form ha
+      simp [convert, convCond, isArr, mEval, opOf, evalOp, matchesCond]
+  case contains => simpa [pol] using leaf_contains numOf d k a false
+  all_goals
+    simp only [convert, convCond, mEval, opOf, Bool.false_eq_true, if_false]
     simp only [Bool.and_eq_true] at h
   case eq => simp [evalOp, matchesCond]
   case neq => simp [evalOp, matchesCond]
@@ -205,65 +620,214 @@ theorem leaf_equiv (numOf : String → Option Int) (d : Elem) (k : String) (c : 
     generalize lookup d k = v at hs h
     cases v <;> simp_all [isScalar, notNumText, evalOp, isLt, isEq, ordLt, ordEq, matchesCond, cmp2, toNum]
     all_goals (first | omega | (rw [Bool.eq_iff_iff]; simp; omega))
-  case within =>
-    obtain ⟨xs, rfl⟩ := isArr_form h
-    simp [evalOp, matchesCond]
-  case without =>
-    obtain ⟨xs, rfl⟩ := isArr_form h
-    simp [evalOp, matchesCond]
-  case contains =>
-    generalize lookup d k = v at hs h
-    cases v <;> simp_all [isScalar, evalOp, foundIn, matchesCond]
   case inside =>
     obtain ⟨lo, hi, rfl⟩ := isNumPair_form h.1
     simp only [convRange, junction_tf, junction_ff, convCond, opOf, Bool.false_eq_true, if_false,
       mEval_and2, mEval_or2]
     generalize lookup d k = v at hs h ⊢
-    cases v <;> simp_all [isScalar, notNumText, convRange, junction, convCond, mEval, mEvalList, andOpt, opOf,
+    cases v <;> simp_all [isScalar, notNumText, andOpt,
       evalOp, isGt, isLt, ordLt, matchesCond, range3, toSlice, toNum]
   case outside =>
     obtain ⟨lo, hi, rfl⟩ := isNumPair_form h.1
     simp only [convRange, junction_tf, junction_ff, convCond, opOf, Bool.false_eq_true, if_false,
       mEval_and2, mEval_or2]
     generalize lookup d k = v at hs h ⊢
-    cases v <;> simp_all [isScalar, notNumText, convRange, junction, convCond, mEval, mEvalList, orOpt, opOf,
+    cases v <;> simp_all [isScalar, notNumText, orOpt,
       evalOp, isGt, isLt, ordLt, matchesCond, range3, toSlice, toNum]
   case between =>
     obtain ⟨lo, hi, rfl⟩ := isNumPair_form h.1
     simp only [convRange, junction_tf, junction_ff, convCond, opOf, Bool.false_eq_true, if_false,
       mEval_and2, mEval_or2]
     generalize lookup d k = v at hs h ⊢
-    cases v <;> simp_all [isScalar, notNumText, convRange, junction, convCond, mEval, mEvalList, andOpt, opOf,
+    cases v <;> simp_all [isScalar, notNumText, andOpt,
       evalOp, isGt, isLt, isEq, ordLt, ordEq, matchesCond, range3, toSlice, toNum]
     all_goals (first | omega | (rw [Bool.eq_iff_iff]; simp; omega))
   case unset => simp at h
 
+theorem leafAgree_wellFormed (numOf : String → Option Int) (v : JV) (c : Cond) (a : JV)
+    (h : leafAgree numOf v c a = true) : leafWellFormed c = true := by
+  cases c <;> simp_all [leafAgree, leafWellFormed]
+
+/-- …and under both polarities (the other one by push-down on the leaf). -/
+theorem leaf_equiv_pol (numOf : String → Option Int) (d : Elem) (k : String) (c : Cond) (a : JV)
+    (h : leafAgree numOf (lookup d k) c a = true) (n : Bool) :
+    mEval d (convert (.cond k c a) n) = some (pol n (matchesCond numOf (lookup d k) c a)) := by
+  have h0 := leaf_equiv numOf d k c a h
+  cases n
+  · rw [h0]; simp [pol]
+  · have hp := leaf_pushdown d k c a false (leafAgree_wellFormed numOf _ c a h)
+    simp only [Bool.not_false] at hp
+    rw [hp, h0]; simp [pol]
+
+/-! ### The model's predicate `agree`, and a wider one -/
+
+/-- `leafAgree` or one of the leaves that agree on EVERY field value (scalar or not): contains;
+    within/without with a non-list argument; a range operator whose argument is not a list of two
+    values. -/
+def leafAgreeW (numOf : String → Option Int) (v : JV) (c : Cond) (a : JV) : Bool :=
+  leafAgree numOf v c a ||
+  match c with
+  | .contains => true
+  | .within | .without => !isArr a
+  | .inside | .outside | .between => !twoBounds a
+  | _ => false
+
 mutual
-  theorem equiv (numOf : String → Option Int) (d : Elem) : ∀ (e : HasE), agree numOf d e = true →
-      mEval d (convert e false) = some (eval numOf d e)
-    | .cond k c a, h => by
-      simp only [agree] at h
-      simp only [eval]
-      exact leaf_equiv numOf d k c a h
+  def agreeW (numOf : String → Option Int) (d : Elem) : HasE → Bool
+    | .cond k c a => leafAgreeW numOf (lookup d k) c a
+    | .and es => agreeWList numOf d es
+    | .or es => agreeWList numOf d es
+    | .not x => agreeW numOf d x
+    | .none => false
+  def agreeWList (numOf : String → Option Int) (d : Elem) : List HasE → Bool
+    | [] => true
+    | x :: xs => agreeW numOf d x && agreeWList numOf d xs
+end
+
+theorem leafW_equiv_pol (numOf : String → Option Int) (d : Elem) (k : String) (c : Cond) (a : JV)
+    (h : leafAgreeW numOf (lookup d k) c a = true) (n : Bool) :
+    mEval d (convert (.cond k c a) n) = some (pol n (matchesCond numOf (lookup d k) c a)) := by
+  unfold leafAgreeW at h
+  rw [Bool.or_eq_true] at h
+  rcases h with h | h
+  · exact leaf_equiv_pol numOf d k c a h n
+  · cases c <;> simp only [Bool.false_eq_true, Bool.not_eq_true'] at h
+    case contains => exact leaf_contains numOf d k a n
+    case within => exact leaf_within_nonlist numOf d k a n h
+    case without => exact leaf_without_nonlist numOf d k a n h
+    case inside => exact leaf_range_malformed numOf d k _ a n (by simp) (twoBounds_false h)
+    case outside => exact leaf_range_malformed numOf d k _ a n (by simp) (twoBounds_false h)
+    case between => exact leaf_range_malformed numOf d k _ a n (by simp) (twoBounds_false h)
+
+mutual
+  theorem agreeW_allLeaves (numOf : String → Option Int) (d : Elem) : ∀ (e : HasE),
+      agreeW numOf d e = allLeaves (fun k c a => leafAgreeW numOf (lookup d k) c a) e
+    | .cond _ _ _ => by simp [agreeW, allLeaves]
+    | .and es => by simp only [agreeW, allLeaves]; exact agreeWList_allLeaves numOf d es
+    | .or es => by simp only [agreeW, allLeaves]; exact agreeWList_allLeaves numOf d es
+    | .not x => by simp only [agreeW, allLeaves]; exact agreeW_allLeaves numOf d x
+    | .none => by simp [agreeW, allLeaves]
+  theorem agreeWList_allLeaves (numOf : String → Option Int) (d : Elem) : ∀ (es : List HasE),
+      agreeWList numOf d es = allLeavesList (fun k c a => leafAgreeW numOf (lookup d k) c a) es
+    | [] => rfl
+    | x :: xs => by
+      simp only [agreeWList, allLeavesList, agreeW_allLeaves numOf d x, agreeWList_allLeaves numOf d xs]
+end
+
+mutual
+  theorem agree_agreeW (numOf : String → Option Int) (d : Elem) : ∀ (e : HasE),
+      agree numOf d e = true → agreeW numOf d e = true
+    | .cond _ _ _, h => by simp only [agree] at h; simp [agreeW, leafAgreeW, h]
     | .and es, h => by
-      simp only [agree, Bool.and_eq_true, Bool.not_eq_true'] at h
-      simp [convert, junction, eval, mEval, convertList_isEmpty, h.1, equivList numOf d es h.2, andOpt_some]
+      simp only [agree] at h; simp only [agreeW]; exact agreeList_agreeW numOf d es h
     | .or es, h => by
-      simp only [agree, Bool.and_eq_true, Bool.not_eq_true'] at h
-      simp [convert, junction, eval, mEval, convertList_isEmpty, h.1, equivList numOf d es h.2, orOpt_some]
+      simp only [agree] at h; simp only [agreeW]; exact agreeList_agreeW numOf d es h
     | .not x, h => by
-      simp only [agree] at h
-      have hp := pushdown d x false (agree_translatable numOf d x h)
-      simp only [Bool.not_false] at hp
-      simp [convert, eval, hp, equiv numOf d x h]
+      simp only [agree] at h; simp only [agreeW]; exact agree_agreeW numOf d x h
     | .none, h => by simp [agree] at h
-  theorem equivList (numOf : String → Option Int) (d : Elem) : ∀ (es : List HasE),
-      agreeList numOf d es = true →
-      mEvalList d (convertList es false) = (evalList numOf d es).map some
-    | [], _ => by simp [convertList, mEvalList, evalList]
+  theorem agreeList_agreeW (numOf : String → Option Int) (d : Elem) : ∀ (es : List HasE),
+      agreeList numOf d es = true → agreeWList numOf d es = true
+    | [], _ => rfl
     | x :: xs, h => by
       simp only [agreeList, Bool.and_eq_true] at h
-      simp [convertList, mEvalList, evalList, equiv numOf d x h.1, equivList numOf d xs h.2]
+      simp [agreeWList, agree_agreeW numOf d x h.1, agreeList_agreeW numOf d xs h.2]
+end
+
+/-- Agreement in the wide region, both polarities, any depth. -/
+theorem equivW (numOf : String → Option Int) (d : Elem) (e : HasE) (n : Bool)
+    (h : agreeW numOf d e = true) :
+    mEval d (convert e n) = some (pol n (eval numOf d e)) := by
+  rw [agreeW_allLeaves] at h
+  exact equiv_gen numOf d _ (fun k c a hk m => leafW_equiv_pol numOf d k c a hk m) e n h
+
+/-- Agreement in the model's region `agree`, both polarities, any depth. -/
+theorem equiv (numOf : String → Option Int) (d : Elem) (e : HasE) (n : Bool)
+    (h : agree numOf d e = true) :
+    mEval d (convert e n) = some (pol n (eval numOf d e)) :=
+  equivW numOf d e n (agree_agreeW numOf d e h)
+
+mutual
+  theorem agreeW_wellFormed (numOf : String → Option Int) (d : Elem) : ∀ (e : HasE),
+      agreeW numOf d e = true → wellFormed e = true
+    | .cond k c a, h => by
+      simp only [agreeW] at h
+      simp only [wellFormed]
+      cases c <;> simp_all [leafAgreeW, leafAgree, leafWellFormed]
+    | .and es, h => by
+      simp only [agreeW] at h
+      simp only [wellFormed]; exact agreeWList_wellFormed numOf d es h
+    | .or es, h => by
+      simp only [agreeW] at h
+      simp only [wellFormed]; exact agreeWList_wellFormed numOf d es h
+    | .not x, h => by
+      simp only [agreeW] at h
+      simp only [wellFormed]; exact agreeW_wellFormed numOf d x h
+    | .none, h => by simp [agreeW] at h
+  theorem agreeWList_wellFormed (numOf : String → Option Int) (d : Elem) : ∀ (es : List HasE),
+      agreeWList numOf d es = true → wellFormedList es = true
+    | [], _ => rfl
+    | x :: xs, h => by
+      simp only [agreeWList, Bool.and_eq_true] at h
+      simp [wellFormedList, agreeW_wellFormed numOf d x h.1, agreeWList_wellFormed numOf d xs h.2]
+end
+
+/-! ### The driver's classification: no reason named ⇒ inside the wide region -/
+
+theorem leafWhy_none (numOf : String → Option Int) (v : JV) (c : Cond) (a : JV)
+    (h : leafWhy numOf v c a = none) : leafAgreeW numOf v c a = true := by
+  unfold leafWhy at h
+  cases hs : isScalar v
+  · simp [hs] at h
+  · simp only [hs, Bool.not_true, Bool.false_eq_true, if_false] at h
+    cases c <;> simp only [leafAgreeW, leafAgree, hs, Bool.true_and] <;> simp only [] at h
+    case unset => simp at h
+    case inside | outside | between =>
+      split at h
+      · rename_i l u
+        split at h
+        · rename_i hq
+          simp only [Bool.and_eq_true] at hq
+          simp [isNumPair, twoBounds, hq.1.1, hq.1.2, hq.2]
+        · simp at h
+      · rename_i hne
+        have : twoBounds a = false := by
+          cases hq : twoBounds a
+          · rfl
+          · exfalso
+            unfold twoBounds at hq
+            split at hq
+            · rename_i l u; exact hne l u rfl
+            · simp at hq
+        simp [this]
+    case gt | gte | lt | lte =>
+      split at h
+      · rename_i hq; simp [hq]
+      · simp at h
+    all_goals simp
+
+mutual
+  theorem whys_nil (numOf : String → Option Int) (d : Elem) : ∀ (e : HasE),
+      whys numOf d e = [] → agreeW numOf d e = true
+    | .cond k c a, h => by
+      simp only [whys] at h
+      simp only [agreeW]
+      apply leafWhy_none
+      cases hq : leafWhy numOf (lookup d k) c a
+      · rfl
+      · simp [hq] at h
+    | .and es, h => by
+      simp only [whys] at h; simp only [agreeW]; exact whysList_nil numOf d es h
+    | .or es, h => by
+      simp only [whys] at h; simp only [agreeW]; exact whysList_nil numOf d es h
+    | .not x, h => by
+      simp only [whys] at h; simp only [agreeW]; exact whys_nil numOf d x h
+    | .none, h => by simp [whys] at h
+  theorem whysList_nil (numOf : String → Option Int) (d : Elem) : ∀ (es : List HasE),
+      whysList numOf d es = [] → agreeWList numOf d es = true
+    | [], _ => rfl
+    | x :: xs, h => by
+      simp only [whysList, List.append_eq_nil_iff] at h
+      simp [agreeWList, whys_nil numOf d x h.1, whysList_nil numOf d xs h.2]
 end
 
 end Grip.Props.C14.Lemmas
